@@ -5,6 +5,7 @@
   any values), every key string, every edit and every YAML codec satisfying the stated law.
 -/
 import Proofs.Lemmas.Config
+import Proofs.Lemmas.ComposeDefaults
 
 namespace C18
 open Config
@@ -358,5 +359,36 @@ example : plain cfg0 = true := by decide
 example : strOk cfg0 = true := by decide
 
 end Examples
+
+/-! ### Link to the option-resolution model (C06)
+
+`EmdModel/Options.lean` carries its own tables of signature defaults (`gniSig`, `ieSig`, `gpeSig`,
+`siftSig`, `ensSig`, `maskSig`) and of the literals written inside the functions (`gpeLocLiteral`,
+`gpeMagLiteral`); `Options.modelSigs` hands them to `getConfig` as the live signatures.  With those
+signatures the default configuration holds exactly the values that argument binding falls back to
+when nothing is supplied (`Options.resolve sig .nil`), so `variant(X, **get_config(name))` and
+`variant(X)` resolve to the same effective options (the property C06 then proves for every user
+edit, `C06.route_independent`).  Helper lemmas: Proofs/Lemmas/ComposeDefaults.lean. -/
+theorem default_config_agrees_with_option_model (v : Options.Variant)
+    (hv : v = .sift ∨ v = .ensemble ∨ v = .complete ∨ v = .mask) :
+    ∃ c sig, getConfig Options.modelSigs v.name.toList = .ok c ∧
+      Options.modelSigs.variant v.name.toList = some sig ∧
+      -- top level: every stored default is what binding the variant's signature yields
+      (∀ p d, sig.lookup p = some d → (Options.resolve sig .nil).lookup p = some d) ∧
+      -- the three stage dictionaries, entry by entry
+      (∃ io, cfgGet c.store (k "imf_opts") = .ok (.dict io) ∧
+        ∀ p d, io.lookup p = some d → (Options.resolve Options.gniSig .nil).lookup p = some d) ∧
+      (∃ eo, cfgGet c.store (k "envelope_opts") = .ok (.dict eo) ∧
+        ∀ p d, eo.lookup p = some d → (Options.resolve Options.ieSig .nil).lookup p = some d) ∧
+      (∃ xo, cfgGet c.store (k "extrema_opts") = .ok (.dict xo) ∧
+        ∀ p e, xo.lookup p = some e → ∃ d, (Options.resolve Options.gpeSig .nil).lookup p = some d ∧
+          Options.effVal p e = Options.effVal p d) ∧
+      -- the two spelled-out pad dictionaries are the fallback literals of `get_padded_extrema`
+      cfgGet c.store (k "extrema_opts/loc_pad_opts") = .ok Options.gpeLocLiteral ∧
+      cfgGet c.store (k "extrema_opts/mag_pad_opts") = .ok Options.gpeMagLiteral := by
+  obtain ⟨c, hc, _, h1, h2, h3, h4, h5⟩ := ComposeDefaults.getConfig_modelSigs v hv
+  obtain ⟨sig, hs, htop⟩ := ComposeDefaults.top_defaults v hv
+  exact ⟨c, sig, hc, hs, htop, ⟨_, h1, fun _ _ h => ComposeDefaults.imf_defaults h⟩,
+    ⟨_, h2, fun _ _ h => ComposeDefaults.env_defaults h⟩, ⟨_, h3, fun _ _ h => ComposeDefaults.ext_defaults h⟩, h4, h5⟩
 
 end C18
